@@ -94,6 +94,13 @@ Definition evRestarted : N := 9.
 Definition evWatched : N := 10.
 Definition evUnwatched : N := 11.
 
+Inductive obs :=
+| OSeen (who : aid) (inst mode : N) (m : msg)
+| OSpawn (by_ : aid) (name : N) (result : N)      (* 0 ok, 1 parent dead, 2 prelaunch failed, 3 already exists *)
+| OGuardClosed
+| ODeadLetter (sys : bool) (m : msg)              (* ghost: the guard published a dead-letter event for this message *)
+| ODropped (m : msg).                             (* ghost: undeliverable after the system stopped *)
+
 Inductive recov := RecFail | RecLog | RecKilled (who : rref).
 
 Inductive instr :=
@@ -118,6 +125,7 @@ Inductive instr :=
 | IRestartFinish
 | IUnzombie
 | ISupApply (c : supctx) (d : decision) (targets : list rref)
+| IObs (o : obs)
 | IEndHandler.
 
 Inductive cons := C0 | C1 | C2 | C3 | CH (e : envelope) | CBusy.
@@ -138,13 +146,6 @@ Record actor := {
   a_cur : option envelope;
   a_pend : list instr;
 }.
-
-Inductive obs :=
-| OSeen (who : aid) (inst mode : N) (m : msg)
-| OSpawn (by_ : aid) (name : N) (result : N)      (* 0 ok, 1 parent dead, 2 prelaunch failed, 3 already exists *)
-| OGuardClosed
-| ODeadLetter (sys : bool) (m : msg)              (* ghost: the guard published a dead-letter event for this message *)
-| ODropped (m : msg).                             (* ghost: undeliverable after the system stopped *)
 
 Record ext := { x_pend : list instr; x_held : list aid }.
 
@@ -479,10 +480,11 @@ Definition exec1 (s : state) (t : tid) (held : list aid) (i : instr) : state * l
                                                    end
                                          | TA _ => exts s
                                          end;
-                                 olog := olog s ++ [OSpawn self (sp_name sp) 0]; ghost := ghost s; err := err s |} in
+                                 olog := olog s; ghost := ghost s; err := err s |} in
                     let s2 := with_actor s1 self (fun x1 => set_children x1 (aset (a_children x1) p c)) in
                     (s2, [IEnq true (RObj c) (RObj self) MLaunch; IEnqDone; IPub evSpawned (p ++ [g])]
-                         ++ match st with Killing => [IEnq true (RObj c) (RObj self) (MKill (RObj self) false); IEnqDone] | _ => [] end)
+                         ++ match st with Killing => [IEnq true (RObj c) (RObj self) (MKill (RObj self) false); IEnqDone] | _ => [] end
+                         ++ [IObs (OSpawn self (sp_name sp) 0)])
                 end
             end
         end
@@ -491,7 +493,7 @@ Definition exec1 (s : state) (t : tid) (held : list aid) (i : instr) : state * l
         match a_parent x with
         | None =>       (* the guard actor: closes the stop signal on its own OnKilled, ignores everything else *)
             match m with
-            | MKilled who => if ref_eq s who (RObj self) then (add_obs s OGuardClosed, []) else (s, [])
+            | MKilled who => if ref_eq s who (RObj self) then (add_ghost s OGuardClosed, []) else (s, [])
             | _ => (s, [])
             end
         | Some _ =>
@@ -591,6 +593,7 @@ Definition exec1 (s : state) (t : tid) (held : list aid) (i : instr) : state * l
         | DInvalid => (s, [])
         end
     | ISupPause c d [] done => (s, [ISupApply c d done])
+    | IObs o => (add_obs s o, [])
     | IEndHandler =>
         (set_actor s self (set_mb x (a_sq x) (a_uq x) (a_paused x) C1 (a_cur x)), [])
     | _ => (set_err s, [])
